@@ -215,6 +215,26 @@ impl Property for C08 {
         Local { open: hist::open_sigs("C08") }
     }
     fn check(&self, c: &Case, local: &mut Local, obs: &mut Obs) -> Verdict {
+        let v = judge(c, local, obs);
+        // A failure that is not a known finding must be reproducible: hash-order dependence inside the
+        // analysis (C11) can make one evaluation of a case differ from the next.
+        if let Verdict::Fail(f) = &v {
+            if !local.open.contains(&f.sig) {
+                for _ in 0..2 {
+                    let mut scratch = Obs::default();
+                    match judge(c, local, &mut scratch) {
+                        Verdict::Fail(g) if g.sig == f.sig => {}
+                        _ => return Verdict::Skip("unstable_failure(c11)".into()),
+                    }
+                }
+            }
+        }
+        v
+    }
+}
+
+fn judge(c: &Case, local: &mut Local, obs: &mut Obs) -> Verdict {
+    {
         if c.ws.files.is_empty() {
             return Verdict::Skip("empty-workspace".into());
         }
@@ -236,6 +256,14 @@ impl Property for C08 {
                 apply(&mut a, &c.ws, op);
             }
             let s2 = hist::sizes(&a);
+            // two more rounds: only monotone growth over all rounds counts as a leak
+            let mut later = vec![];
+            for _ in 0..2 {
+                for op in &c.ops {
+                    apply(&mut a, &c.ws, op);
+                }
+                later.push(hist::sizes(&a));
+            }
             // control run for the undo relation: the same history with every edit-restore pair replaced by
             // a plain re-submission of the same file through the same path.  Whatever the edit-restore run
             // shows beyond this control is state left behind by the undone edit.
@@ -258,9 +286,9 @@ impl Property for C08 {
             } else {
                 None
             };
-            Ok((d0, d1, s0, s1, s2, touched, control))
+            Ok((d0, d1, s0, s1, s2, later, touched, control))
         });
-        let (d0, d1, s0, s1, s2, touched, control) = match r {
+        let (d0, d1, s0, s1, s2, later, touched, control) = match r {
             Ok(Ok(x)) => x,
             Ok(Err(cat)) => return Verdict::Skip(cat),
             Err(_) => return Verdict::Skip("analysis-panic(C12)".into()),
@@ -279,14 +307,25 @@ impl Property for C08 {
         // undo relation first (edit-restore vs plain re-submission), then the re-submission relation
         let mut cands = vec![];
         if let Some((dc, sc)) = &control {
-            cands.extend(hist::dump_candidates("undo:", dc, &d1));
+            // differences of the batch-vs-incremental / analysis-order families are not specific to the
+            // undone edit (the intermediate state merely exposes them): they keep their plain signature
+            const FAMILY: &[&str] = &["inferred-type-drift", "multi-decl-global-order", "member-definition-order", "owner-rehomed", "find-module:changed", "module-info:semantic-changed", "resubmit-resolves-less"];
+            for (sig, msg) in hist::dump_candidates("undo:", dc, &d1) {
+                let plain = sig.trim_start_matches("undo:").to_string();
+                if FAMILY.contains(&plain.as_str()) {
+                    cands.push((plain, msg));
+                } else {
+                    cands.push((sig, msg));
+                }
+            }
             let grown: Vec<String> = hist::grown(sc, &s1).into_iter().map(|(k, b, a)| format!("{k}: {b} -> {a}")).collect();
             if !grown.is_empty() {
                 let index = grown[0].split('.').next().unwrap_or("").to_string();
                 cands.push((format!("undo:index-growth:{index}"), format!("an edit-restore history holds more index entries than the same history with plain re-submissions: {}", grown.join(", "))));
             }
         }
-        cands.extend(hist::dump_candidates("", &d0, &d1));
+        let touched_names: Vec<String> = touched.iter().map(|k| c.ws.files[*k].name.clone()).collect();
+        cands.extend(hist::dump_candidates_touched("", &d0, &d1, Some(&touched_names)));
         // one candidate per index (the maps of one index grow together).  Growth that repeats when the
         // history is replayed a second time is a leak; growth that happens only once means the batch
         // analysis had left something unresolved that the re-analysis of a single file resolves.
@@ -294,6 +333,10 @@ impl Property for C08 {
         for (k, before, after) in hist::grown(&s1, &s2) {
             // a leak grows in both rounds
             if s0.iter().find(|x| x.0 == k).map(|x| x.1).unwrap_or(0) >= before {
+                continue;
+            }
+            let at = |s: &Vec<(String, usize)>| s.iter().find(|x| x.0 == k).map(|x| x.1).unwrap_or(0);
+            if !(at(&later[0]) > after && at(&later[1]) > at(&later[0])) {
                 continue;
             }
             let index = k.split('.').next().unwrap_or("").to_string();
